@@ -1806,6 +1806,14 @@ class Sim:
             if has("std::iter::Iterator::collect") and len(substs) >= 2 and substs[1].startswith("std::vec::Vec<"):
                 vals = rest if byval else [Ref([x], 0, ()) for x in rest]
                 return ("value", Adt("sim::Vec", 0, [Tup(vals)]))
+        if p in ("std::iter::Peekable::<I>::peek", "std::iter::Peekable::<I>::peek_mut") and d and isinstance(d[0], Adt) \
+                and d[0].adt == "sim::SliceIter":
+            it = d[0]
+            seq, i = it.fields[0], it.fields[1]
+            elems = seq.b if isinstance(seq, Bytes) else seq.fields
+            if i < len(elems):
+                return ("value", Adt("std::option::Option", 1, [Ref(elems, i, ()) if not isinstance(seq, Bytes) else Ref([elems[i]], 0, ())]))
+            return ("value", Adt("std::option::Option", 0, []))
         if has("std::iter::Iterator::next") and d and isinstance(d[0], Adt) and d[0].adt == "sim::SliceIter":
             it = d[0]
             seq, i = it.fields[0], it.fields[1]
